@@ -35,6 +35,7 @@ var (
 	verifDir = flag.String("verif", "/verif", "verif root")
 	budget   = flag.Duration("budget", 0, "override internal time budget")
 	cpuprof  = flag.String("cpuprofile", "", "write a CPU profile of this worker")
+	resume   = flag.Bool("resume", false, "continue from the checkpoint of an earlier attempt (internal)")
 )
 
 func main() {
@@ -80,6 +81,10 @@ func doWorker(c *checks.Check, seed int64) int {
 		w.Deadline = time.Unix(*deadline, 0)
 	}
 	if c.CrashAware {
+		w.CkptDir = *dir
+		if *resume {
+			w.Restore(*dir)
+		}
 		f, err := os.OpenFile(fmt.Sprintf("%s/w%d.progress", *dir, *worker), os.O_CREATE|os.O_WRONLY|os.O_TRUNC, 0o644)
 		if err == nil {
 			w.Progress = f
@@ -195,7 +200,7 @@ func doMaster(c *checks.Check, seed int64) int {
 			for attempt := 0; ; attempt++ {
 				args := []string{"-prop", c.ID, "-tier", *tier, "-worker", strconv.Itoa(i), "-of", strconv.Itoa(n), "-dir", runDir, "-deadline", strconv.FormatInt(dl, 10), "-verif", *verifDir}
 				if len(skips) > 0 {
-					args = append(args, "-skip", strings.Join(skips, ","))
+					args = append(args, "-skip", strings.Join(skips, ","), "-resume")
 				}
 				var cmd *exec.Cmd
 				if c.MemLimitKB > 0 {
